@@ -17,6 +17,9 @@ PROBE_TSV = os.path.join(ROOT, 'gen', 'c16_probe.tsv')
 PROBE_INC = os.path.join(ROOT, 'harness', 'c16_probe_cases.inc')
 TRANS_TSV = os.path.join(ROOT, 'gen', 'c16_transitive.tsv')
 EXPL_TSV = os.path.join(ROOT, 'gen', 'c16_explicit.tsv')
+EXTRA_TSV = os.path.join(ROOT, 'gen', 'c16_guards_extra.tsv')
+# exported entry points outside the files the property is anchored in (the quantifier says "every exported entry point")
+FILES_EXTRA = ['mem.c', 'options.c', 'file.c', 'debug.c', 'builtin_hashes.c']
 
 
 def strip_comments(s):
@@ -188,7 +191,7 @@ def strip_config_conditionals(src, path):
 
 
 def parse_file(path):
-    raw = open(path).read()
+    raw = open(path, encoding='latin-1').read()
     src = strip_config_conditionals(strip_comments(raw), path)
     funcs = []
     for m in FUNC_RE.finditer(src):
@@ -270,10 +273,12 @@ def valclass(val, rtype):
     return 'OTHER'
 
 
-def freeze(srcroot):
+def freeze(srcroot, files=None, tsv=None):
+    files = files or FILES
+    tsv = tsv or TSV
     rows = []
     listed_unguarded = []
-    for f in FILES:
+    for f in files:
         funcs, tables = parse_file(os.path.join(srcroot, 'src', f))
         fmap = {x['name']: x for x in funcs}
         slot_of = {}
@@ -363,8 +368,8 @@ def freeze(srcroot):
                             continue
                         rows.append([f, fn['name'], kind, pub, str(idx), fn['rtype'],
                                      '; '.join('%s|%s' % (ty, n) for ty, n in fn['params']), str(a), str(b), macro, vc, val])
-    os.makedirs(os.path.dirname(TSV), exist_ok=True)
-    with open(TSV, 'w') as out:
+    os.makedirs(os.path.dirname(tsv), exist_ok=True)
+    with open(tsv, 'w') as out:
         out.write('# file\tfunction\troute\tclass_table\tslot\trtype\tparams\tnull_param\tother_null_param\tguard\tvalue_class\tvalue_expr\n')
         for r in rows:
             out.write('\t'.join(r) + '\n')
@@ -413,7 +418,7 @@ def probe_rows(srcroot):
 
 def load_rows(path=None):
     rows = []
-    paths = [path] if path else [TSV] + [x for x in (TRANS_TSV, EXPL_TSV) if os.path.exists(x)]
+    paths = [path] if path else [TSV] + [x for x in (EXTRA_TSV, TRANS_TSV, EXPL_TSV) if os.path.exists(x)]
     for l in (x for pth in paths for x in open(pth)):
         if l.startswith('#') or not l.strip():
             continue
@@ -431,7 +436,7 @@ def sample(ty, name, fn):
     simple = {
         'spif_str_t': 'mk_str(variant)', 'spif_ustr_t': 'mk_ustr(variant)', 'spif_mbuff_t': 'mk_mbuff(variant)', 'spif_obj_t': 'mk_obj(variant)',
         'spif_charptr_t': 'mk_cstr()', 'spif_byteptr_t': '(spif_byteptr_t) mk_cstr()', 'char *': 'mk_cstr()', 'spif_ptr_t': '(spif_ptr_t) mk_cstr()',
-        'spif_objpair_t': 'mk_pair(variant)', 'spif_tok_t': 'mk_tok(variant)', 'spif_url_t': 'mk_url(variant)', 'spif_regexp_t': 'mk_regexp()',
+        'spif_objpair_t': 'mk_pair(variant)', 'spif_tok_t': 'mk_tok(variant)', 'spif_url_t': 'mk_url(variant)', 'spif_regexp_t': 'mk_regexp(variant)',
         'spif_socket_t': 'mk_socket()', 'spif_array_t': 'mk_array(K)', 'spif_linked_list_t': 'mk_llist(K)', 'spif_dlinked_list_t': 'mk_dlist(K)',
         'spif_list_t': 'mk_list()', 'spif_vector_t': 'mk_vector()', 'spif_map_t': 'mk_map()',
         'spif_array_iterator_t': 'mk_array_iter()', 'spif_linked_list_iterator_t': 'mk_llist_iter()', 'spif_dlinked_list_iterator_t': 'mk_dlist_iter()',
@@ -441,6 +446,7 @@ def sample(ty, name, fn):
         'spif_ipsockaddr_t': 'mk_ipaddr()', 'spif_unixsockaddr_t': 'mk_unaddr()', 'spif_sockaddr_t': '(spif_sockaddr_t) mk_ipaddr()',
         'spif_func_t': '(spif_func_t) 0', 'spifconf_var_t *': '(spifconf_var_t *) 0', 'ctx_handler_t': 'c16_ctx_handler',
         'spifconf_func_ptr_t': 'c16_builtin', 'va_list': None,
+        'void *': '(void *) mk_cstr()', 'spifmem_memrec_t *': 'mk_memrec()',
     }
     if t in simple:
         return simple[t]
@@ -484,7 +490,7 @@ def emit(probe=False):
             if ty == '...':
                 varargs = True
                 continue
-            if i == r['np'] or i == r['onp'] and r['vc'] == 'CMPE':
+            if i == r['np'] or i == r['onp'] and r['vc'] == 'CMPE' or (r['guard'] == 'EXPLICIT_ALLNULL' and is_pointer_type(ty)):
                 args.append('(%s) 0' % ty)
                 decls.append(None)
                 continue
@@ -559,7 +565,7 @@ def emit(probe=False):
         body.append('    c16_snap_check(res);\n}')
         out.append('\n'.join(body))
         desc = '%s %s(param %d %s = NULL%s) via %s expects %s' % (r['file'], r['func'], r['np'], params[r['np']][1],
-                                                                     ' and param %d NULL' % r['onp'] if vc == 'CMPE' else '',
+                                                                     ' and param %d NULL' % r['onp'] if vc == 'CMPE' else ' and every other pointer parameter NULL' if r['guard'] == 'EXPLICIT_ALLNULL' else '',
                                                                      r['route'] if r['route'] == 'direct' else '%s[%d]' % (r['table'], r['slot']), vc)
         table.append('    { c16_case_%d, "%s", "%s", "%s", %d },' % (n, r['func'], desc.replace('"', "'"), vc, 1 if has_scalar else 0))
         n += 1
@@ -595,6 +601,8 @@ if __name__ == '__main__':
     a = sys.argv[1:]
     if a and a[0] == '--freeze':
         freeze(a[1] if len(a) > 1 else '/repo')
+    elif a and a[0] == '--freeze-extra':
+        freeze(a[1] if len(a) > 1 else '/repo', FILES_EXTRA, EXTRA_TSV)
     elif a and a[0] == '--emit':
         emit()
     elif a and a[0] == '--probe-rows':
